@@ -71,6 +71,14 @@ def make_items(ctx, only=None):
         p = os.path.join(root, n + '.abi')
         open(p, 'wb').write(docs[n])
         docs[n + ':path'] = p
+    # corpus-group documents (what abidw --linux-tree writes for the stand-in kernel trees): abidiff has a separate branch for them
+    for n in ('ktree_v0', 'ktree_v1'):
+        o = ctx.run('abidw', {'argv': ['abidw', '--linux-tree', libs[n]]})
+        if o.klass != ('exit', 0) or b'abi-corpus-group' not in (o.stdout or b''):
+            raise C.InfraError('could not produce the corpus-group document for %s' % n)
+        p = os.path.join(root, n + '.group.abi')
+        open(p, 'wb').write(o.stdout)
+        docs[n + ':path'] = p
     # every option each tool documents, read from its own --help: used for pairs of options on otherwise valid command lines
     # (conflicting pairs such as --redundant --no-redundant, duplicates, options that want a value and do not get a sensible one)
     helpopts = {}
@@ -121,7 +129,12 @@ def make_plans(ctx, tier, items):
                 if nd in (1, 2, 3):
                     p['b'] += '_nodbg'
                 p['opts'] = p['opts'] + [o for o in SINGLE_OPTS if rng.chance(1, 6) and o not in p['opts']]
-            if r < 65:
+            if r < 35:
+                # two corpus groups, in either direction (a module function is removed in one of them)
+                p['kind'] = 'group-pair'
+                p['a'], p['b'] = rng.choice([('ktree_v0', 'ktree_v1'), ('ktree_v1', 'ktree_v0'), ('ktree_v1', 'ktree_v0'), ('ktree_v1', 'ktree_v1')])
+                p['opts'] = [o for o in p['opts'] if o not in ('--dump-diff-tree',)]
+            elif r < 65:
                 p['kind'] = 'pair'
             else:
                 p['kind'] = 'damaged'
@@ -163,6 +176,9 @@ def execute(ctx, it, p):
     elif p['kind'] == 'pair':
         argv = ['abidiff'] + p['opts'] + [libs[p['a']], libs[p['b']]]
         label = 'pair:' + ' '.join(p['opts'])
+    elif p['kind'] == 'group-pair':
+        argv = ['abidiff'] + p['opts'] + [it['docs'][p['a'] + ':path'], it['docs'][p['b'] + ':path']]
+        label = 'group-pair:' + ' '.join(p['opts'])
     elif p['kind'] == 'damaged':
         img = c09.damage(it['docs'][p['doc']], p['fault'])
         files['dmg.abi'] = img
